@@ -3,9 +3,10 @@
 Proof side : coq/Properties_C17.v over coq/Refcount.v (ADF file table: ADFI_open_file / ADFI_get_file_index_from_name /
              ADFI_link_add / the link step of ADFI_chase_link / ADFI_close_file as its call stack; ADF_Database_Open / Close;
              cgio_open_file / cgio_close_file; cg_open / cg_close), with a ledger of open descriptors:
-             C17_refcount_refuted (+ witnesses: premature close, close error that strands a cgio slot, unbounded recursion
-             on a link cycle), C17_refcount_balanced_fixed / C17_close_drops_one_reference_fixed / C17_session_invariant_fixed
-             for the proposed repair, C17_failing_open_releases, C17_handles_released_refuted / _fixed for the MLL table.
+             C17_refcount_balanced / C17_close_drops_one_reference / C17_close_terminates / C17_session_invariant /
+             C17_handles_released / C17_failing_open_releases for the current code (Cur / MCur), C17_refcount_balanced_cyclic_refuted
+             for what is still false of it (link cycles: known finding), and the ..._old_refuted theorems about the
+             transcription of the code before 909ac4d / def473d.
 Tie C      : harness/c17_io.c drives cgio_open_file / link traversals / cgio_close_file of the library rebuilt from the
              working tree with the script the extracted model runs; after EVERY operation the status, the cgio table, the
              ADF file table and the number of descriptors of the process (/proc/self/fd minus the baseline) must coincide
@@ -17,8 +18,9 @@ Oracle     : (model-free, both back ends, cgio level and MLL level; TESTED, not 
                and MLL tables released;
              - LeakSanitizer finds no unreachable block allocated under a library frame;
              - the session repeated N times in one process: bytes allocated after cycle N = after the warm-up cycle (slope 0).
-Variant    : the check first replays the two witnesses on the implementation and transcribes whichever of the two
-             ADFI_close_file variants (the code as it is / the proposed repair) the working tree contains.
+Variant    : the model variants Cur / MCur (ADFI_close_file since /repo 909ac4d, cg_open since def473d) are the ones run
+             against the library.  The witnesses of the repaired defects live in corpus/C17/*.json: they run FIRST and must pass;
+             a regression re-fires VIOLATION under the original key.
 """
 import concurrent.futures, glob, hashlib, json, os, re, shutil
 import vlib
@@ -530,10 +532,7 @@ def mll_model_lines(script, il, variant, backend):
 
 
 # ----------------------------------------------------------------------------------------------- the check
-W1 = ("world ok,ok,ok 0>1,2>0", ["open 0 r", "open 2 r", "open 2 r", "walk 2 0 1", "walk 3 0", "close 2", "close 1", "close 3"])
-W2 = ("world ok,ok 0>1,1>0", ["open 0 r", "walk 1 1 0", "close 1"])
-CORPUS_IO = [("world ok,ok 0>1", ["open 0 r", "node 1 1", "close 1"]), W1, W2,
-             ("world ok,ok,ok 0>1,2>0", ["open 0 r", "open 2 r", "walk 2 0 1", "close 2", "walk 1 1", "close 1"]),
+CORPUS_IO = [("world ok,ok 0>1", ["open 0 r", "node 1 1", "close 1"]),
              ("world ok,ok,badhdr,garbage 0>1,0>2,0>3,1>2", ["open 0 m", "walk 1 2", "walk 1 3", "walk 1 1 2", "open 2 r", "open 3 r", "node 1 1", "close 1"]),
              ("world ok,ok,ok 0>1,1>2", ["open 0 r", "open 1 r", "walk 1 1 2", "walk 2 2", "close 2", "close 1", "open 2 r", "open 2 m", "close 1", "close 2"])]
 
@@ -544,21 +543,11 @@ def _sc(backend, prep, body):
 
 W = ["base 0 Base", "zone 0 1 Zone1 2", "coord 0 1 1 CoordinateX", "sol 0 1 1 Sol1", "field 0 1 1 1 Density"]
 CORPUS_MLL = [
-    # cg_open failing behind cgio_open_file: wrong version, two version nodes, broken base, broken zone, dangling link
-    _sc("adf", ["prep 12 badver adf"], ["open 0 12 r", "close 0"]),
-    _sc("adf", ["prep 13 twovers adf"], ["open 0 13 r", "open 1 13 m", "close 0"]),
-    _sc("hdf5", ["prep 14 badbase hdf5", "prep 15 badzone hdf5"], ["open 0 14 r", "open 0 15 m", "close 0"]),
-    _sc("adf", [], ["open 0 1 w"] + W + ["link 0 1 0 Dangling 10 /Base/Zone1", "close 0", "open 0 1 r", "open 0 1 m", "close 0"]),
+    # witnesses of KNOWN findings (those of the repaired defects are regression inputs in corpus/C17/)
     # HDF5: reading through a link to another file; the same file opened twice, closed in the other order
     _sc("hdf5", [], ["open 0 1 w"] + W + ["close 0", "open 0 2 w", "base 0 Base", "zone 0 1 ZoneA 2",
                      "link 0 1 1 GridCoordinates 1 /Base/Zone1/GridCoordinates", "close 0", "open 0 2 r", "rcoord 0 1 1 CoordinateX", "close 0"]),
     _sc("hdf5", [], ["open 0 1 w"] + W + ["close 0", "open 0 1 r", "open 1 1 r", "close 1", "close 0"]),
-    # cg_save_as failing after its output was opened
-    _sc("adf", [], ["open 0 2 w", "base 0 Base", "link 0 1 0 Dangling 10 /Base/Zone1", "save 0 21 adf 1", "close 0"]),
-    # ADF: two files whose links lead to each other (link to a link)
-    _sc("adf", [], ["open 0 1 w"] + W + ["zone 0 1 ZoneA 2", "link 0 1 2 SolL 2 /Base/ZoneA/SolM", "close 0",
-                    "open 0 2 w"] + W + ["zone 0 1 ZoneA 2", "link 0 1 2 SolM 1 /Base/Zone1/Sol1", "link 0 1 2 SolB 1 /Base/ZoneA/SolL", "close 0",
-                    "open 0 1 r", "nsols 0 1 2", "open 1 2 r", "nsols 1 1 2", "close 0", "close 1"]),
 ]
 
 
@@ -577,23 +566,15 @@ def long_session(backend):
     return _sc(backend, ["prep 11 garbage " + backend], body)
 
 
-def detect_variant(exe, work):
-    """which ADFI_close_file does the working tree contain?  (witness W1: does 'close 1' report error 9?)"""
-    r = io_case(exe, W1[0], W1[1], "adf", work, "detect")
-    il = [l for l in r["impl"] if l.startswith("close ")]
-    if r["outcome"] == "ok" and len(il) >= 2 and il[1].startswith("close 0") and " | io 1 " in il[1] + " ":
-        return "fixa"
-    return "faithful"
-
-
-def detect_mll_variant(exe, work):
-    sc = {"prep": ["ftype adf", "prep 12 badver adf"], "body": ["open 0 12 r"], "backend": "adf", "shape": "none", "nfiles": 0}
-    r = mll_case(exe, sc, work, "detectm", 1)
-    for l in r["impl"]:
-        if l.startswith("open "):
-            d = fields(l)
-            return "fixed" if d.get("mll", "mll 1").split()[1] == "0" else "faithful"
-    return "faithful"
+def load_corpus():
+    """corpus/C17/*.json: witnesses of defects that have been repaired in /repo; they must pass"""
+    out = []
+    d = os.path.join(vlib.ROOT, "corpus", "C17")
+    for f in sorted(glob.glob(os.path.join(d, "*.json"))):
+        c = json.load(open(f))
+        c["file"] = os.path.basename(f)
+        out.append(c)
+    return out
 
 
 def shrink_ops(ops, fails):
@@ -635,9 +616,8 @@ def run(ck):
         "a close error, table growth, a cycle, or (MLL) links / failing opens; distinct by SHA1 of the script")
     if res["ok"]:
         vlib.build_modelrun("c17")
-    variant = detect_variant(hio, ck.work)
-    mvariant = detect_mll_variant(hml, ck.work)
-    ck.extra["transcribed_variant"] = {"ADFI_close_file": variant, "cg_open": mvariant}
+    variant, mvariant = "cur", "cur"      # Refcount.Cur / MCur = /repo since 909ac4d / def473d
+    ck.extra["transcribed_variant"] = {"ADFI_close_file": "Cur (since /repo 909ac4d)", "cg_open": "MCur (since /repo def473d)"}
     pool = concurrent.futures.ThreadPoolExecutor(max_workers=WORKERS)
     findings, corr_broken = {}, []
     stats = {"io_sessions": {"adf": 0, "hdf5": 0}, "io_features": {}, "io_ops": 0, "states_compared": 0,
@@ -649,6 +629,35 @@ def run(ck):
         k = key or ("unclassified:" + desc.get("problem", "?")[:40])
         if k not in findings:
             findings[k] = (key, desc, replay)
+
+    # ---------------- regression corpus (repaired defects): runs first, must pass
+    stats["corpus"] = {}
+    for c in load_corpus():
+        if c["level"] == "cgio":
+            r = io_case(hio, c["world"], c["ops"], c["backend"], ck.work, "corp", variant if res["ok"] else None)
+            bad = io_oracle(r)
+            rep = {"level": "cgio", "backend": c["backend"], "world": c["world"], "ops": c["ops"]}
+            if r["model"] is not None:
+                il = [l.split(" h5 ")[0] for l in r["impl"] if not l.startswith("end ") and not l.startswith("cycle ")]
+                ck.cov["traces_validated_against_impl"] += 1
+                if il != r["model"] or r["outcome"] != "ok":
+                    dv = vlib.first_divergence(r["model"], il)
+                    corr_broken.append({"level": "cgio/adf", "corpus": c["file"], "world": c["world"], "ops": c["ops"], "outcome": r["outcome"],
+                                        "first_divergence": dv and {"line": dv[0], "model": dv[1], "impl": dv[2]}})
+        else:
+            sc = {"prep": c["prep"], "body": c["body"], "backend": c["backend"], "shape": "corpus", "nfiles": 0}
+            r = mll_case(hml, sc, ck.work, "corp", 3)
+            bad = mll_oracle(r)
+            rep = {"level": "mll", "backend": c["backend"], "prep": c["prep"], "body": c["body"], "cycles": 3}
+        ck.case(hashlib.sha1(("corpus" + c["file"]).encode()).hexdigest(), sample={"corpus": c["file"], "key": c["key"]})
+        stats["corpus"][c["file"]] = "pass"
+        for key, desc in bad:
+            if key and ck.known_match(key):
+                ck.finding(key, dict(rep, failure=desc))         # e.g. the cycle witness now shows the (known) cycle leak
+            else:
+                stats["corpus"][c["file"]] = "FAIL"
+                ck.finding(c["key"], dict(rep, failure=desc, regression_of=c["file"], repaired_by=c.get("fixed_by"),
+                                          oracle="regression corpus: the witness of a repaired defect fails again"))
 
     # ---------------- cgio / ADF level
     nio = 700 if big else 90
